@@ -7,7 +7,12 @@
 (*   - every frame is displayed correctly by the reference terminal with the *)
 (*     fallbacks the missing features require (RefTerm!FrameOK: nearest      *)
 (*     palette entry without rgb, single underline without colour without    *)
-(*     styledUnderlines, widths as the terminal measures them).              *)
+(*     styledUnderlines, widths as the terminal measures them);              *)
+(*   - text the application hands to a widget of the library (pager, text    *)
+(*     input) is displayed cluster after cluster from the widget's first     *)
+(*     column on, each cluster in as many columns as THIS terminal gives it  *)
+(*     ("graphemes are measured with the width method that matches" what the *)
+(*     replies established): TextRows below; the same FrameOK then judges.   *)
 EXTENDS RefTerm, Caps, TLC, Json, IOUtils
 
 Trace == ndJsonDeserialize(IOEnv.TRACE)
@@ -21,6 +26,43 @@ Init == l = 1 /\ t = InitTerm(1, 1, FALSE) /\ adv = {} /\ phase = "startup" /\ f
 Reject(e, why, detail) ==
   /\ failed' = TRUE
   /\ PrintT("REJECT " \o ToJson([scn |-> e.scn, line |-> l, why |-> why, detail |-> detail]))
+
+----------------------------------------------------------------------------
+(* Rows drawn by a text widget.  A frame event may carry texts: a sequence  *)
+(* of [r, c, cells, fill, cur]: the widget fills row r with blanks (fill, an *)
+(* application cell) and shows the clusters cells (application cells        *)
+(* <<g, 0, fg, bg, ul, us, at, ln, tw>>: width left to the library, tw = the *)
+(* logged number of columns this terminal gives the cluster) one after the  *)
+(* other from column c on; cur > 0: its cursor, of that DECSCUSR shape, is   *)
+(* requested in the column behind the last cluster.  Where a cluster starts *)
+(* is the sum of what the terminal gives the clusters before it: whichever  *)
+(* method the library measures with has to arrive at the same columns.      *)
+(* Each blank and each cluster is one write (RefTerm!WantAt).               *)
+HasTexts(e) == "texts" \in DOMAIN e
+TextStamp == 1000000
+ClusterCols(a) == Max(1, AW(a))
+RECURSIVE PlaceText(_, _, _, _, _)
+PlaceText(row, n, x, cells, st) ==
+  IF cells = <<>> \/ x > n THEN row
+  ELSE LET a == Head(cells)
+           w == ClusterCols(a)
+       IN PlaceText([y \in 1..n |-> IF y >= x /\ y < x + w THEN a \o <<x, st>> ELSE row[y]],
+                    n, x + w, Tail(cells), st + 1)
+RECURSIVE TextEnd(_, _)
+TextEnd(x, cells) == IF cells = <<>> THEN x ELSE TextEnd(x + ClusterCols(Head(cells)), Tail(cells))
+TextRow(tx, n) == PlaceText([y \in 1..n |-> tx.fill \o <<y, TextStamp>>], n, tx.c, tx.cells, TextStamp + 1)
+
+(* The frame event with the widget rows laid out and the widget's cursor. *)
+TextRows(e) ==
+  IF ~HasTexts(e) THEN e
+  ELSE LET n == Len(e.app[1])
+           On(y) == {k \in 1..Len(e.texts) : e.texts[k].r = y}
+           Curs == {k \in 1..Len(e.texts) : e.texts[k].cur > 0}
+       IN [e EXCEPT !.app = [y \in 1..Len(e.app) |-> IF On(y) = {} THEN e.app[y]
+                                                      ELSE TextRow(e.texts[CHOOSE k \in On(y) : TRUE], n)],
+                    !.cur = IF Curs = {} THEN e.cur
+                            ELSE LET tx == e.texts[CHOOSE k \in Curs : TRUE]
+                                 IN <<1, tx.r, TextEnd(tx.c, tx.cells), tx.cur>>]
 
 IsCmd(e) == e.ev \notin {"reset", "frame", "ready", "scramble", "resize", "mark", "other"}
 
@@ -37,8 +79,9 @@ Next ==
            ELSE Reject(e, "accessors", {f \in DOMAIN e.can : e.can[f] # Established(adv)[f]})
      ELSE IF e.ev = "frame" THEN
         /\ UNCHANGED <<t, adv, phase>>
-        /\ IF FrameOK(t, e) THEN UNCHANGED failed
-           ELSE Reject(e, "frame-" \o FrameWhy(t, e), FirstBad(t, e))
+        /\ LET f == TextRows(e) IN
+           IF FrameOK(t, f) THEN UNCHANGED failed
+           ELSE Reject(e, "frame-" \o (IF HasTexts(e) THEN "text-" ELSE "") \o FrameWhy(t, f), FirstBad(t, f))
      ELSE IF e.ev = "other" THEN
         /\ UNCHANGED <<t, adv, phase>>
         /\ Reject(e, "unknown-vocabulary", e.what)
